@@ -21,7 +21,7 @@ CHECKS.update({
             "DESIGN.md §4 C01"),
     "C02": ("model_checking", "E2",
             "explicit-state BFS over client request histories against a real broker.Service (in-memory connections, independent MQTT client codec), states deduplicated by trie dump + per-connection counters + reference model",
-            "Every sequence of subscribe/unsubscribe/link/failing requests by two clients to depth 3 (quick) / 4 (thorough) over xor-colliding, repeated and wildcard filters is replayed on a real broker; in every reached state every client publishes to 9 channels with and without me=0 and through links, and each client's inbox is compared with the reference (exactly-once, topic, payload); failing requests must answer emitter/error/ and change nothing. Further searches: one connection juggling three xor-colliding filters (depth 7/8), and a fault variant in which a third subscriber's socket fails every write while the two healthy clients must be served as before.",
+            "Every sequence of subscribe/unsubscribe/link/failing requests by two clients to depth 3 (quick) / 4 (thorough) over xor-colliding, repeated and wildcard filters is replayed on a real broker; in every reached state every client publishes to 9 channels with and without me=0 and through links, and each client's inbox is compared with the reference (exactly-once, topic, payload); failing requests must answer emitter/error/ and change nothing. Further searches: one connection juggling three xor-colliding filters (depth 7/8), a fault variant in which a third subscriber's socket fails every write while the two healthy clients must be served as before, look-alike channel names (case, long common prefix, punctuation), a large-payload probe, and a part in which a second publisher's whole delivery is inserted after the first socket write of another delivery to the same subscriber (payload sizes 10 B - 60 KB).",
             "clients act one acknowledged request at a time (histories, not schedules); single broker; level names outside the alphabet are not explored.",
             "DESIGN.md §4 C02"),
     "C07": ("model_checking", "E2",
@@ -41,7 +41,7 @@ CHECKS.update({
             "DESIGN.md §4 C16"),
     "C18": ("model_checking", "E2",
             "explicit-state BFS over subscribe/unsubscribe/disconnect/presence-request histories of three clients on a real broker, FIFO barrier on the real presence queue",
-            "Every history to depth 3 (quick) / 5 (thorough) over 14 operations is replayed on a real broker; after every operation the watcher's inbox must hold exactly the expected subscribe/unsubscribe notifications (connection id and username checked), and in every state presence status requests for three channels must list exactly the connections the C02 reference says would receive a publish. A second search has one connection juggle three xor-colliding sub-channels of a watched channel.",
+            "Every history to depth 3 (quick) / 5 (thorough) over 14 operations is replayed on a real broker; after every operation the watcher's inbox must hold exactly the expected subscribe/unsubscribe notifications (connection id and username checked), and in every state presence status requests for three channels must list exactly the connections the C02 reference says would receive a publish. A second search has one connection juggle three xor-colliding sub-channels of a watched channel, a third uses channels spelled like the broker's reserved words (presence/..., query/...).",
             "single broker (cluster survey returns nothing); notifications awaited through a no-op pushed through the real queue.",
             "DESIGN.md §4 C18"),
 })
@@ -49,7 +49,7 @@ CHECKS.update({
 CHECKS.update({
     "C10": ("model_checking", "E1",
             "preemption- and deviation-bounded exhaustive schedule exploration (controlled scheduler, rate-limiter answers as environment choices) of publishers writing real MQTT packets into the real listener.Conn / websocket transport while the periodic flush runs",
-            "Nine scenarios (plain buffered connection with two publishers x two packets and two timer flushes, with one packet pre-queued, and with a large packet of 1.1/4.2/8.3/60 KB behind a queued small one; websocket transport; websocket over the buffered connection; the shared encode-buffer pool with yields inside the encoder) are explored exhaustively up to 2 (quick) / 3 (thorough) deviations; the byte stream that reached the socket is parsed by an independent MQTT decoder and must consist of complete packets, each sent message once, per-publisher order kept, nothing left queued after the timer flush. The real pubsub.Publish is driven by one publisher (three messages) with 1..100 (thorough: ..1000) recording subscribers one of which holds one write: every subscriber must see the three messages in order.",
+            "Nine scenarios (plain buffered connection with two publishers x two packets and two timer flushes, with one packet pre-queued, and with a large packet of 1.1/4.2/8.3/60 KB behind a queued small one; websocket transport; websocket over the buffered connection; the shared encode-buffer pool with yields inside the encoder) are explored exhaustively up to 2 (quick) / 3 (thorough) deviations; the byte stream that reached the socket is parsed by an independent MQTT decoder and must consist of complete packets, each sent message once, per-publisher order kept, nothing left queued after the timer flush. The real pubsub.Publish is driven by one publisher (three messages) with 1..100 (thorough: ..1000) recording subscribers one of which holds one write: every subscriber must see the three messages in order. Bursts of up to ~1 MB of rate-limited PUBLISH packets (real encoder) through the buffered connection must come out once, in order.",
             "socket Write calls are atomic; sequentially consistent statement-level interleavings; real sockets/TLS/OS scheduling not modelled.",
             "DESIGN.md §4 C10"),
     "C11": ("exploration", "E3",
@@ -78,7 +78,7 @@ CHECKS.update({
 CHECKS.update({
     "C03": ("exploration", "E3+E1",
             "bounded-exhaustive enumeration of (key target, permission mask, expiry, requested channel, operation) tuples through the real Authorize on real brokers per license version, compared in both directions with a string-level reference + preemption-bounded exhaustive schedule exploration of two concurrent requests",
-            "169 targets x 681 requests x 6 operations with mask 0xFE on all three licenses plus all 256 masks x 3 expiries on representative pairs (quick), the full product with all masks (thorough); foreign-contract/signature/master keys crafted with the real cipher, undecryptable strings, banned keys and banned keys presented in another spelling (standard base64 alphabet); every disagreement is shrunk to a minimal shape-based signature. Two simultaneous requests (channel parsing, key decryption, target validation) are explored under the controlled scheduler with <= 1 / 2 preemptions: each must be judged as when it is alone. A key's verdict table is compared before and after the key has been used for link extensions through the real keygen (a key is not altered by use); foreign-key kinds are also run on a license whose contract signature is 0.",
+            "169 targets x 681 requests x 6 operations with mask 0xFE on all three licenses plus all 256 masks x 3 expiries on representative pairs (quick), the full product with all masks (thorough); foreign-contract/signature/master keys crafted with the real cipher, undecryptable strings, banned keys and banned keys presented in another spelling (standard base64 alphabet); every disagreement is shrunk to a minimal shape-based signature. Two simultaneous requests (channel parsing, key decryption, target validation) are explored under the controlled scheduler with <= 1 / 2 preemptions: each must be judged as when it is alone. A key's verdict table is compared before and after the key has been used for link extensions through the real keygen (a key is not altered by use); foreign-key kinds are also run on a license whose contract signature is 0. A real broker with the HTTP contract provider follows a loopback contract service that switches the contract between allowed and refused.",
             "grammar: 3 literals, '+', '#', depth <= 3 targets / <= 4 requests; single-contract provider.",
             "DESIGN.md §4 C03"),
     "C12": ("exploration", "E3",
@@ -104,7 +104,7 @@ CHECKS.update({
 CHECKS.update({
     "C04": ("model_checking", "E2+E1",
             "explicit-state BFS over add/del/merge histories on 3 replicas of the real CRDT (volatile, durable, event.State), ghost-set oracle on every reached state, process-level workers + preemption-bounded exhaustive schedule exploration of concurrent merges into one replica",
-            "Every history of add/del with logical clocks {1,2,3} (ties and out-of-order included) and merges (clone, encode/decode, forwarded delta) among three replicas up to the stated depth is replayed on the real Volatile/Durable/State implementations; in every state every replica's (add, remove) times read through Get/Has/Range/Count (and the State accessors) must equal the pointwise maximum over the set of primitive updates it has transitively received, and Has must equal 'added and latest add not older than latest remove'. Two merges and a local update arriving at one volatile replica at the same time are explored under the controlled scheduler (<= 2 / 3 preemptions): the replica must end at the pointwise maximum; the same on a durable replica (yields between the statements of its methods, buntdb transactions atomic), with the entry unknown, known, or served from the read cache.",
+            "Every history of add/del with logical clocks {1,2,3} (ties and out-of-order included) and merges (clone, encode/decode, forwarded delta) among three replicas up to the stated depth is replayed on the real Volatile/Durable/State implementations; in every state every replica's (add, remove) times read through Get/Has/Range/Count (and the State accessors) must equal the pointwise maximum over the set of primitive updates it has transitively received, and Has must equal 'added and latest add not older than latest remove'. Two merges and a local update arriving at one volatile replica at the same time are explored under the controlled scheduler (<= 2 / 3 preemptions): the replica must end at the pointwise maximum; the same on a durable replica (yields between the statements of its methods, buntdb transactions atomic), with the entry unknown, known, or served from the read cache. A full snapshot of a 50000-entry durable state (what the encoder sends at most) must be accepted and reproduce every entry.",
             "states are merged on per-key maxima of the ghost sets + replica symmetry (cross-checked against the unreduced key); values after the 16-byte header are not compared.",
             "DESIGN.md §4 C04"),
     "C05": ("model_checking", "E2",
